@@ -195,10 +195,22 @@ def rule_prefix(model):
         if isinstance(n, ast.If) and 'startswith' in norm(n.test):
             lit = [x.value for x in ast.walk(n.test)
                    if isinstance(x, ast.Constant)]
-            w = [x.slice.lower.value for x in ast.walk(n)
-                 if isinstance(x, ast.Subscript) and
-                 isinstance(x.slice, ast.Slice) and
-                 isinstance(x.slice.lower, ast.Constant)]
+            w = []
+            for x in ast.walk(n):
+                if isinstance(x, ast.Subscript) and \
+                        isinstance(x.slice, ast.Slice) and \
+                        x.slice.lower is not None:
+                    lo = x.slice.lower
+                    if isinstance(lo, ast.Call) and \
+                            isinstance(lo.func, ast.Name) and \
+                            lo.func.id == 'len' and len(lo.args) == 1:
+                        okf, v = model.fold(lo.args[0], b, b.module)
+                        if okf and isinstance(v, str):
+                            w.append(len(v))
+                        continue
+                    okf, v = model.fold(lo, b, b.module)
+                    if okf:
+                        w.append(v)
             r.instance(b.where, f'if {norm(n.test)}', f'width {w}')
             if lit == ['sequence-'] and w == [len('sequence-')]:
                 ok_b = True
@@ -366,6 +378,41 @@ def _push_fragment(model, fi, lp):
     return out
 
 
+class _Subst(ast.NodeTransformer):
+    def __init__(self, mapping):
+        self.mapping = mapping
+
+    def visit_Name(self, node):
+        if node.id in self.mapping:
+            import copy
+            return copy.deepcopy(self.mapping[node.id])
+        return node
+
+
+def inline_body(model, fi, call):
+    """Body of the repo function `call` resolves to (a plain function of
+    the same package), with the call's arguments substituted for its
+    parameters; None when the callee is not such a function."""
+    import copy
+    tg = model.resolve_callee(call.func, fi)
+    if len(tg) != 1 or tg[0][0] != 'func':
+        return None
+    h = tg[0][1]
+    if h is fi or call.keywords or any(
+            isinstance(a, ast.Starred) for a in call.args):
+        return None
+    params = h.params()
+    if h.cls is not None and isinstance(call.func, ast.Attribute):
+        params = params[1:]
+    if len(params) < len(call.args):
+        return None
+    assigned = {n.id for n in ast.walk(h.node) if isinstance(n, ast.Name)
+                and isinstance(n.ctx, ast.Store)}
+    mapping = {p: a for p, a in zip(params, call.args)
+               if p not in assigned}
+    return [_Subst(mapping).visit(copy.deepcopy(s)) for s in h.node.body]
+
+
 class _TS(BaseState):
     __slots__ = ('pushes', 'split', 'trace', 'cur_exc')
 
@@ -388,8 +435,26 @@ class _TableDomain(Domain):
     """Evaluates the push decision under one truth assignment of the atoms
     no_push_item / mapping / text element / 2-tuple element."""
 
-    def __init__(self, assign):
+    def __init__(self, assign, model=None, fi=None):
         self.assign = assign
+        self.model = model
+        self.fi = fi
+
+    def simple(self, stmt, st):
+        # a decision moved into a helper is evaluated in place, with the
+        # arguments substituted for the helper's parameters
+        if self.model is not None:
+            for c in ast.walk(stmt):
+                if not isinstance(c, ast.Call):
+                    continue
+                body = inline_body(self.model, self.fi, c)
+                if body is None:
+                    continue
+                from ..flow import Outcome
+                outs = Interp(self).block(body, st)
+                return [Outcome('normal', o.state) for o in outs
+                        if o.kind in ('normal', 'return')]
+        return Domain.simple(self, stmt, st)
 
     def atom(self, test):
         t = norm(test)
@@ -437,7 +502,7 @@ def _decision_table(model, fi, lp):
     for npi, mapping, text, pair in itertools.product([False, True],
                                                       repeat=4):
         dom = _TableDomain({'npi': npi, 'mapping': mapping, 'text': text,
-                            'pair': pair})
+                            'pair': pair}, model, fi)
         outs = Interp(dom).block(frag, _TS())
         res = sorted({(o.state.pushes, o.state.split) for o in outs
                       if o.kind == 'normal'})
